@@ -51,7 +51,7 @@ ASSUMPTIONS = [
     "Pasqal: measurement with invert_mask raises the documented NotImplementedError",
     "directed device graphs: a routed operation must follow the direction of its edge (the router's own adjacency test), inserted "
     "SWAPs on one-way edges are the documented CNOT/H decomposition",
-    "non-termination watchdogs (20 s routing, 300 s compilation; the guarded calls take milliseconds) turn a hang into a violation",
+    "non-termination watchdogs in CPU time of the worker (5 CPU-s routing, 120 CPU-s compilation; the guarded calls use milliseconds) turn a hang into a violation",
 ]
 SENSITIVITY = [
     "core: keep-old-vs-new two-qubit count choice inverted", "core: tags_to_ignore not passed to the decompose step",
@@ -82,10 +82,11 @@ class _Hang(BaseException):
 
 
 class _watchdog:
-    """Non-termination detector (not a budget): the guarded calls take milliseconds; the limit is 4 orders of magnitude above that."""
+    """Non-termination detector (not a budget).  Counts *CPU* seconds of this process (ITIMER_PROF), so machine load cannot
+    trigger it; the guarded calls use milliseconds of CPU, the limit is 2-4 orders of magnitude above that."""
 
-    def __init__(self, seconds, what):
-        self.seconds, self.what = seconds, what
+    def __init__(self, cpu_seconds, what):
+        self.seconds, self.what = cpu_seconds, what
 
     def __enter__(self):
         import signal
@@ -93,16 +94,16 @@ class _watchdog:
         def handler(signum, frame):
             raise _Hang()
 
-        self._old = signal.signal(signal.SIGALRM, handler)
-        signal.alarm(self.seconds)
+        self._old = signal.signal(signal.SIGPROF, handler)
+        signal.setitimer(signal.ITIMER_PROF, self.seconds)
 
     def __exit__(self, et, ev, tb):
         import signal
 
-        signal.alarm(0)
-        signal.signal(signal.SIGALRM, self._old)
+        signal.setitimer(signal.ITIMER_PROF, 0)
+        signal.signal(signal.SIGPROF, self._old)
         if et is _Hang:
-            raise Violation(f"{self.what} did not return within {self.seconds} s (non-termination)")
+            raise Violation(f"{self.what} did not return within {self.seconds} CPU-seconds (non-termination)")
         return False
 
 
@@ -140,7 +141,7 @@ def _compile(case):
     ctx = cirq.TransformerContext(tags_to_ignore=(CG.IGNORE_TAG,), deep=bool(case.get("deep")))
     before = circuit.copy()
     try:
-        with _watchdog(300, "optimize_for_target_gateset"):
+        with _watchdog(120, "optimize_for_target_gateset"):
             out = cirq.optimize_for_target_gateset(circuit, context=ctx, gateset=gateset, ignore_failures=False,
                                                    max_num_passes=case.get("passes"))
     except ValueError as e:
@@ -161,15 +162,15 @@ def _check_native(gateset, circuit, out, case):
     ign_in = Counter(op for op in circuit.all_operations() if CG.IGNORE_TAG in op.tags)
     ign_out = Counter(op for op in out.all_operations() if CG.IGNORE_TAG in op.tags)
     if ign_in != ign_out:
-        raise Violation("operations tagged with a tag in tags_to_ignore were not left untouched: "
-                        f"in={sorted(map(repr, ign_in.elements()))} out={sorted(map(repr, ign_out.elements()))}"[:600])
+        raise Violation(f"operations tagged with a tag in tags_to_ignore were not left untouched [{case['gs']['k']}]\n"
+                        f"in={sorted(map(repr, ign_in.elements()))} out={sorted(map(repr, ign_out.elements()))}"[:700])
     k = case["gs"]["k"]
 
     rest = cirq.Circuit(cirq.Moment(op for op in m if CG.IGNORE_TAG not in op.tags) for m in out)
     for op in rest.all_operations():
         if op not in gateset:
             name = type(op.gate).__name__ if op.gate is not None else type(op.untagged).__name__
-            raise Violation(f"output contains an operation the target gateset does not accept: {name} [{k}] {op!r}"[:400])
+            raise Violation(f"output contains an operation the target gateset does not accept: {name} [{k}]\n{op!r}"[:400])
     if not gateset.validate(rest):
         raise Violation(f"gateset.validate(output) is False although every operation is individually accepted [{k}]")
 
@@ -177,11 +178,11 @@ def _check_native(gateset, circuit, out, case):
 def _check_equiv(circuit, qs, out, case, nops):
     extra = set(out.all_qubits()) - set(qs)
     if extra:
-        raise Violation(f"compiled circuit acts on new qubits {sorted(map(repr, extra))}")
+        raise Violation(f"compiled circuit acts on new qubits\n{sorted(map(repr, extra))}")
     m_in = Counter(op for op in circuit.all_operations() if cirq.is_measurement(op))
     m_out = Counter(op for op in out.all_operations() if cirq.is_measurement(op))
     if m_in != m_out:
-        raise Violation(f"measurements changed: in={list(m_in)!r} out={list(m_out)!r}"[:400])
+        raise Violation(f"measurements changed by compilation\nin={list(m_in)!r} out={list(m_out)!r}"[:400])
     U_in, why = R.circuit_matrix(circuit, qs, skip_measure=True)
     if U_in is None:
         raise Reject("input without unitary")
@@ -362,12 +363,12 @@ def oracle_route(case):
     directed = bool(case["graph"].get("directed"))
     before = circuit.copy()
     router = cirq.RouteCQC(graph)
-    with _watchdog(20, "RouteCQC.route_circuit"):
+    with _watchdog(5, "RouteCQC.route_circuit"):
         routed, initial_map, swap_map = router.route_circuit(circuit, lookahead_radius=int(case["lookahead"]) or 1,
                                                              tag_inserted_swaps=bool(case["tag"]), initial_mapper=mapper)
     if circuit != before:
         raise Violation("route_circuit modified its input circuit")
-    with _watchdog(20, "RouteCQC.__call__"):
+    with _watchdog(5, "RouteCQC.__call__"):
         called = router(circuit, lookahead_radius=int(case["lookahead"]) or 1, tag_inserted_swaps=bool(case["tag"]), initial_mapper=mapper)
     if called != routed:
         raise Violation("RouteCQC.__call__ returns a different circuit than route_circuit()[0] for the same arguments")
@@ -394,9 +395,9 @@ def oracle_route(case):
         if len(op.qubits) == 2:
             a, b = (pidx[q] for q in op.qubits)
             if tuple(sorted((a, b))) not in und:
-                raise Violation(f"routed two-qubit operation {op!r} does not act on an edge of the device graph"[:300])
+                raise Violation(f"routed two-qubit operation does not act on an edge of the device graph\n{op!r}"[:300])
             if directed and (a, b) not in dir_edges and not (op.gate == cirq.SWAP and (b, a) in dir_edges and (a, b) in dir_edges):
-                raise Violation(f"directed device graph: routed operation {op!r} acts against the only direction of its edge"[:300])
+                raise Violation(f"directed device graph: routed operation acts against the only direction of its edge\n{op!r}"[:300])
         elif len(op.qubits) > 2 and not cirq.is_measurement(op):
             raise Violation(f"routed circuit contains a >2-qubit non-measurement operation {op!r}"[:300])
     # -- equality up to the reported permutation (measurements replaced by a fixed non-symmetric surrogate on both sides)
@@ -449,7 +450,7 @@ def oracle_route(case):
                 want[l].append(op)
         for l in want:
             if seq[l] != want[l]:
-                raise Violation(f"after removing tagged swaps and undoing the mapping, logical qubit {l!r} sees {seq[l]!r}, original {want[l]!r}"[:600])
+                raise Violation(f"after removing tagged swaps and undoing the mapping a logical qubit sees a different operation sequence\n{l!r}: {seq[l]!r}, original {want[l]!r}"[:600])
         for l, p in initial_map.items():
             if cur.get(swap_map[p]) != l:
                 raise Violation("swap_map disagrees with the tagged swaps actually inserted")
